@@ -536,6 +536,7 @@ def worker(args):
 
 HANG_LIMIT = 3          # after this many hung cases the rest of the run is not executed any more
 CASE_TIMEOUT = 25.0     # seconds without a new answer line
+STARTUP_TIMEOUT = 120.0 # … before the first answer of a fresh worker (interpreter start + import of the module)
 
 
 def main():
@@ -566,39 +567,51 @@ def main():
             for l in case:
                 out.write(l + (' => EXC Skipped-after-hangs' if l.startswith('py ') else '') + '\n')
             continue
-        p = subprocess.Popen([sys.executable, os.path.abspath(__file__), '--worker', '--module-dir', args.module_dir, '--table', args.table],
-                             stdin=subprocess.PIPE, stdout=subprocess.PIPE, text=True)
-        q = queue.Queue()
-        def pump(stream=p.stdout):
-            for l in stream:
-                q.put(l.rstrip('\n'))
-            q.put(None)
-        threading.Thread(target=pump, daemon=True).start()
-        try:
-            p.stdin.write('\n'.join(case) + '\n'); p.stdin.close()
-        except BrokenPipeError:
-            pass
-        got = []
-        while len(got) < len(case):
+        # A worker that gives no answer at all to the first Python request (it died while starting, or the start —
+        # interpreter, import of the debug-built module — took longer than the timeout on a loaded machine) is an artefact of
+        # the executor, not of the bindings: the case is started again, up to three times, with a longer first-answer timeout.
+        # A call that really never returns (F10) does so again and is reported.
+        for attempt in range(3):
+            first_py = next((k for k, l in enumerate(case) if l.startswith('py ')), len(case))
+            p = subprocess.Popen([sys.executable, os.path.abspath(__file__), '--worker', '--module-dir', args.module_dir, '--table', args.table],
+                                 stdin=subprocess.PIPE, stdout=subprocess.PIPE, text=True)
+            q = queue.Queue()
+            def pump(stream=p.stdout):
+                for l in stream:
+                    q.put(l.rstrip('\n'))
+                q.put(None)
+            threading.Thread(target=pump, daemon=True).start()
             try:
-                a = q.get(timeout=CASE_TIMEOUT)
-            except queue.Empty:
-                a = 'TIMEOUT'
-            if a is None or a == 'TIMEOUT':
-                break
-            got.append(a)
-        if len(got) < len(case):
-            hung = p.poll() is None
-            p.kill()
-            if hung: hangs += 1
-            for k, l in enumerate(case[len(got):]):
-                if not l.startswith('py '):
-                    got.append(l)
-                elif k == 0:
-                    got.append(l + (' => PANIC hang: the Python call did not return within %d s' % int(CASE_TIMEOUT) if hung
-                                    else ' => PANIC the Python interpreter died (exit code %s)' % p.returncode))
-                else:
-                    got.append(l + ' => EXC Skipped')
+                p.stdin.write('\n'.join(case) + '\n'); p.stdin.close()
+            except BrokenPipeError:
+                pass
+            got = []
+            while len(got) < len(case):
+                try:
+                    a = q.get(timeout=(STARTUP_TIMEOUT if len(got) <= first_py else CASE_TIMEOUT))
+                except queue.Empty:
+                    a = 'TIMEOUT'
+                if a is None or a == 'TIMEOUT':
+                    break
+                got.append(a)
+            if len(got) <= first_py and len(got) < len(case) and attempt < 2:
+                p.kill(); p.wait()
+                continue
+            if len(got) < len(case):
+                hung = p.poll() is None
+                p.kill()
+                if hung: hangs += 1
+                blamed = False
+                for l in case[len(got):]:
+                    if not l.startswith('py '):
+                        got.append(l)
+                    elif not blamed:
+                        blamed = True
+                        got.append(l + (' => PANIC hang: the Python call did not return within %d s' % int(CASE_TIMEOUT) if hung
+                                        else ' => PANIC the Python interpreter died (exit code %s)' % p.returncode))
+                    else:
+                        got.append(l + ' => EXC Skipped')
+            break
         p.wait()
         out.write('\n'.join(got) + '\n')
     out.flush()
